@@ -2,6 +2,7 @@
 //   - every non-test file of the target packages that imports "sync" gets the import
 //     rewritten to `sync "verifmc/vsync"` (mode sched only);
 //   - the private-state dump files under /verif/overlay_src are added to their packages.
+//
 // usage: mkoverlay <mode: plain|sched> <outdir>   (prints the overlay JSON path)
 package main
 
